@@ -11,6 +11,7 @@
   correspondence run through a `Read` implementation driven by the schedule of the request.
 -/
 import DltVerif.Lemmas.Reader
+import DltVerif.Lemmas.ParserImage
 
 namespace Dlt
 
@@ -24,6 +25,29 @@ theorem C07_refines (sched : List Step) (w : Bool) (f : Option ProcessedFilter) 
   have := readAllWith_refines readExact readExact_contract w f
     { buf := [], data := bs, sched := sched } (bs.length + 1) (by simp)
   simpa [readAll] using this
+
+/-- "no byte stream whatsoever, including one that declares a length smaller than its own
+    header, makes the reader panic": the panic outcome is never delivered, for any schedule -/
+theorem C07_nopanic (sched : List Step) (w : Bool) (f : Option ProcessedFilter) (bs : Bytes) :
+    Delivered.error .panic ∉ readAll sched w f bs := by
+  rw [C07_refines]
+  unfold Spec.readStream
+  intro h
+  rw [List.mem_map] at h
+  obtain ⟨p, _, hp⟩ := h
+  cases p with
+  | msg b =>
+    unfold Spec.deliver at hp
+    simp only at hp
+    cases hd : dltMessage b f w with
+    | ok r => rw [hd] at hp; cases hp
+    | error e =>
+      rw [hd] at hp
+      simp only [Delivered.error.injEq] at hp
+      subst hp
+      exact toResult_ne_panic (dltMessageIntern_ne_panic b f w) hd
+  | badLen => cases hp
+  | truncated => cases hp
 
 /-- in particular the result does not depend on the fragmentation at all -/
 theorem C07_schedule_independent (s1 s2 : List Step) (w : Bool) (f : Option ProcessedFilter)
